@@ -119,3 +119,62 @@ func VH_C01_BinOp() {
 	vCheck(vBigVal(l0) == vl0 && vBigVal(l1) == vl1 && vBigVal(r0) == vr0 && vBigVal(r1) == vr1, "binop/operands-unmodified")
 	vReach("binop/done")
 }
+
+var vhCmpOps = []t.ID{t.IDXBinaryNotEq, t.IDXBinaryLessThan, t.IDXBinaryLessEq, t.IDXBinaryEqEq, t.IDXBinaryGreaterEq, t.IDXBinaryGreaterThan}
+
+func vhCmp(op t.ID, a, b int64) bool {
+	switch op {
+	case t.IDXBinaryNotEq:
+		return a != b
+	case t.IDXBinaryLessThan:
+		return a < b
+	case t.IDXBinaryLessEq:
+		return a <= b
+	case t.IDXBinaryEqEq:
+		return a == b
+	case t.IDXBinaryGreaterEq:
+		return a >= b
+	}
+	return a > b
+}
+
+// VH_C01_Refine: facts.refine with one fact `n OP c` (SIDE 0) or `c OP n` (SIDE 1): every value
+// inside the incoming bounds that satisfies the fact stays inside the refined bounds, and an
+// "inconsistent" error is only reported when no value satisfies the fact.
+func VH_C01_Refine() {
+	op := vhCmpOps[vParam("OP")]
+	k := vParam("K")
+	lim := int64(1) << uint(k)
+	b0, b1, c := vBig("b0", k+1), vBig("b1", k+1), vBig("c", k+1)
+	vb0, vb1, vc := vBigVal(b0), vBigVal(b1), vBigVal(c)
+	vAssume(vAnd(-lim < vb0, vAnd(vb0 <= vb1, vb1 < lim)))
+	vAssume(vAnd(-lim < vc, vc < lim))
+	v := vI64("v")
+	vAssume(vAnd(vb0 <= v, v <= vb1))
+
+	n := a.NewExpr(0, 0, t.IDThis, nil, nil, nil, nil)
+	n.SetMType(typeExprU32)
+	ce := a.NewExpr(0, 0, t.IDArgs, nil, nil, nil, nil)
+	ce.SetConstValue(c)
+	ce.SetMType(typeExprIdeal)
+	var fact *a.Expr
+	holds := false
+	if vParam("SIDE") == 0 {
+		fact = a.NewExpr(0, op, 0, n.AsNode(), nil, ce.AsNode(), nil)
+		holds = vhCmp(op, v, vc)
+	} else {
+		fact = a.NewExpr(0, op, 0, ce.AsNode(), nil, n.AsNode(), nil)
+		holds = vhCmp(op, vc, v)
+	}
+	nb, err := facts{fact}.refine(n, bounds{b0, b1}, &t.Map{})
+	if err != nil {
+		vCheck(!holds, "refine/inconsistent-only-when-no-value-satisfies-the-fact")
+		vReach("refine/rejected")
+		return
+	}
+	if holds {
+		vCheck(vAnd(vBigVal(nb[0]) <= v, v <= vBigVal(nb[1])), "refine/keeps-every-value-that-satisfies-the-fact")
+	}
+	vCheck(nb[0] != nil && nb[1] != nil, "refine/bounds-present")
+	vReach("refine/done")
+}
